@@ -285,6 +285,7 @@ impl U {
             }
         }
         match ai {
+            AI::Decl { name, payload } if *payload >= 100 => format!("DECLARE lc{name} INTEGER[{}]", payload - 99),
             AI::Decl { name, payload } => format!("DECLARE m{name} BIT[{}]", payload + 1),
             AI::FrameDef { key, payload } => {
                 let (qs, nm) = FRAME_KEYS[*key as usize];
